@@ -13,7 +13,6 @@ import (
 	"encoding/json"
 	"fmt"
 	"os"
-	"sort"
 
 	"github.com/quay/claircore/verifharness/internal/ctrl"
 	"github.com/quay/claircore/verifharness/internal/hx"
@@ -319,12 +318,27 @@ func Run(cfg hx.Config) error {
 			}
 		}
 	}
-	keys := make([]string, 0)
-	for k := range r.Hist {
-		keys = append(keys, k)
+	// Interleavings: the same direct checks with four scanner goroutines
+	// (LayerScanConcurrency = 4). Call numbering then depends on the schedule,
+	// so these runs are not part of the line protocol; the statement is about
+	// every schedule, so whichever one happens must satisfy it.
+	cs := ctrl.NewSession(r)
+	cs.Quiet, cs.Concurrency = true, 4
+	cc := &checker{r: r, s: cs}
+	nConc := cfg.N(400, 8000)
+	for i := 0; i < nConc && !r.Stop() && !cs.Lost; i++ {
+		sc := scenario{Cfg: GenConfig(rnd), M: GenManifest(rnd, 4)}
+		if rnd.Chance(1, 3) {
+			sc.Pre = append(sc.Pre, GenManifest(rnd, 3))
+		}
+		script := ctrl.Script{rnd.Intn(110): kinds[rnd.Intn(len(kinds))]}
+		if rnd.Chance(1, 4) {
+			script[rnd.Intn(110)] = kinds[rnd.Intn(len(kinds))]
+		}
+		r.Count("concurrent.scenario")
+		cc.faulty(sc, []ctrl.Script{script}, false)
 	}
-	sort.Strings(keys)
 	r.Notes["store"] = "in-memory indexer.Store (go/internal/memstore) following datastore/postgres method by method; every method atomic"
-	r.Notes["concurrency"] = "LayerScanConcurrency=1 (the call sequence must be deterministic for position-indexed faults)"
+	r.Notes["concurrency"] = "protocol lines: LayerScanConcurrency=1 (the call sequence must be deterministic for position-indexed faults); plus direct checks only with LayerScanConcurrency=4"
 	return nil
 }
